@@ -10,6 +10,7 @@ import (
 	"os"
 	"os/exec"
 	"path/filepath"
+	"slices"
 	"sort"
 	"strings"
 	"sync"
@@ -32,11 +33,12 @@ type c03Version struct {
 }
 
 type c03Resume struct {
-	Layer     int   `json:"layer"`   // index into the version's layers
-	Parts     []int `json:"parts"`   // part sizes (tiling of the blob)
-	Done      []int `json:"done"`    // completed bytes per part
-	Corrupt   bool  `json:"corrupt"` // completed region holds wrong bytes
-	EmptyPart int   `json:"empty_part_file,omitempty"` // 1-based: this part file is empty (process died while rewriting it)
+	Layer     int   `json:"layer"`                        // index into the version's layers
+	Parts     []int `json:"parts"`                        // part sizes (tiling of the blob)
+	Done      []int `json:"done"`                         // completed bytes per part
+	Corrupt   bool  `json:"corrupt"`                      // completed region holds wrong bytes
+	EmptyPart int   `json:"empty_part_file,omitempty"`    // 1-based: this part file is empty (process died while rewriting it)
+	Missing   []int `json:"missing_part_files,omitempty"` // these part files do not exist (process died while removing them after the layer was complete)
 }
 
 // c03Overlap: while this attempt is held in the middle of its pull (the CDN response of its second blob is
@@ -228,6 +230,16 @@ func c03Gen(r *kit.Rand, idx int, tiny []byte) c03Case {
 				}
 				if r.Chance(1, 4) {
 					rs.EmptyPart = r.Range(1, np)
+				} else if np > 1 && r.Chance(1, 3) {
+					// the state a process leaves that dies while it finishes a layer: every part complete, the data
+					// file whole, the lower numbered part files already removed
+					rs.Corrupt = r.Chance(1, 4)
+					for p := range rs.Parts {
+						rs.Done[p] = rs.Parts[p]
+					}
+					for p, gone := 0, r.Range(1, np-1); p < gone; p++ {
+						rs.Missing = append(rs.Missing, p)
+					}
 				}
 				at.Resume = rs
 			}
@@ -306,7 +318,9 @@ func c03WriteResume(models string, l c03Layer, rs *c03Resume) {
 		} else {
 			pj = append(pj, '\n')
 		}
-		os.WriteFile(fmt.Sprintf("%s-partial-%d", base, i), pj, 0o644)
+		if !slices.Contains(rs.Missing, i) {
+			os.WriteFile(fmt.Sprintf("%s-partial-%d", base, i), pj, 0o644)
+		}
 		off += ps
 	}
 	os.WriteFile(base+"-partial", data, 0o644)
